@@ -1,5 +1,5 @@
 //! Checks whose executions are adversarial single-instance histories with all monitors attached.
-use crate::frame::{Batch, CheckDef};
+use crate::frame::{Batch, CheckDef, Tier};
 use crate::chaos::Chaos;
 use crate::exhaust::Exhaustive;
 
@@ -104,8 +104,14 @@ fn hist_def(property: &'static str, h: &'static Hist, rule: &'static str, quick:
         real_components: REAL,
         stub_components: STUB,
         batches: vec![Batch { scenario: h, quick, thorough }, Batch { scenario: chaos_for(property), quick: 3_000, thorough: 150_000 }, Batch { scenario: exhaustive_for(property), quick: 0, thorough: 0 }],
-        extra: None,
+        extra: if property == "C08" { Some(twin08) } else { None },
     }
+}
+
+/// C08 also runs in the release profile: `become_connected` carries a debug assertion ("at least one
+/// active member") that fires before the notification the C08 oracle would object to.
+fn twin08(tier: Tier, seed: u64) -> serde_json::Value {
+    crate::frame::release_twin("C08", tier, seed, serde_json::Value::Null)
 }
 
 pub fn defs() -> Vec<CheckDef> {
